@@ -92,6 +92,7 @@ type Exec struct {
 	pcS          []*Term // the part of pc kept on the solver's assertion stack (multi-variable conjuncts)
 	pcSLen       []int
 	domTerms     map[domKey]*Term
+	enumCache    map[enumKey]uint8
 	maxDepthAll  int
 	timers       []Value
 
@@ -292,6 +293,11 @@ func (e *Exec) domTerm() *Term {
 	return res
 }
 
+type enumKey struct {
+	c *Term
+	d [4]uint64
+}
+
 type domKey struct {
 	v *Term
 	d [4]uint64
@@ -319,6 +325,21 @@ func evalWith(t *Term, v *Term, val uint64) uint64 {
 // feasible values: sound for exploration; obligations are always decided by the solver under the full pc).
 func (e *Exec) enumBranch(c *Term, v *Term) (canT, canF bool) {
 	d := e.domainOf(v)
+	key := enumKey{c, d}
+	if r, ok := e.enumCache[key]; ok {
+		e.stats.EnumDecided++
+		return r&1 != 0, r&2 != 0
+	}
+	defer func() {
+		var r uint8
+		if canT {
+			r |= 1
+		}
+		if canF {
+			r |= 2
+		}
+		e.enumCache[key] = r
+	}()
 	n := 1 << v.W
 	for k := 0; k < n && !(canT && canF); k++ {
 		if d[k>>6]&(1<<(uint(k)&63)) == 0 {
@@ -679,6 +700,7 @@ func (e *Exec) runPath(prefix []decision, entry *ssa.Function) (out pathOutcome)
 	e.pcSLen = e.pcSLen[:0]
 	if e.domTerms == nil {
 		e.domTerms = map[domKey]*Term{}
+		e.enumCache = map[enumKey]uint8{}
 	}
 	e.steps = 0
 	e.maxDepthSeen = 0
